@@ -349,6 +349,16 @@ def run_check(prop, tier='quick', seed=0, replay=None):
         for n in required:
             if n not in ax:
                 broken.append('required theorem %s is missing from Properties/%s.lean' % (n, prop))
+    leanchecker = None
+    if build_ok and tier == 'thorough':
+        try:
+            pr = subprocess.run(['lake', 'env', 'leanchecker', 'Usid.Properties.' + prop], cwd=LEAN_DIR,
+                                stdout=subprocess.PIPE, stderr=subprocess.STDOUT, text=True, timeout=1800)
+            leanchecker = 'ok' if pr.returncode == 0 else 'FAILED: ' + pr.stdout[-500:]
+            if pr.returncode != 0:
+                broken.append('leanchecker rejected Usid.Properties.%s' % prop)
+        except subprocess.TimeoutExpired:
+            leanchecker = 'timeout'
     obligations = len(ax)
     discharged = sum(1 for a in ax.values() if a is not None and set(a) <= ALLOWED_AXIOMS)
 
@@ -371,13 +381,28 @@ def run_check(prop, tier='quick', seed=0, replay=None):
     # ---- 5. model -----------------------------------------------------------------------
     disagreements = []
     model_obs = [None] * len(cases)
+    disagreement_notes = {}
     if build_ok:
         try:
-            model_obs = model_observations(mod, cases)
-            for i, (c, mo) in enumerate(zip(cases, model_obs)):
-                io = canon(mod.project(c, results[i][0])) if hasattr(mod, 'project') else results[i][0]
-                if jdump(io) != jdump(mo):
-                    disagreements.append(i)
+            if hasattr(mod, 'model_requests_obs'):
+                reqs, spans = [], []
+                for c, r in zip(cases, results):
+                    rs = mod.model_requests_obs(c, r[0])
+                    spans.append((len(reqs), len(reqs) + len(rs)))
+                    reqs.extend(rs)
+                resp = run_driver(reqs, main=getattr(mod, 'DRIVER', 'Main.lean'))
+                for i, (c, (a, b)) in enumerate(zip(cases, spans)):
+                    notes = mod.model_compare(c, results[i][0], resp[a:b])
+                    model_obs[i] = {'notes': notes[:5]}
+                    if notes:
+                        disagreements.append(i)
+                        disagreement_notes[i] = notes[:5]
+            else:
+                model_obs = model_observations(mod, cases)
+                for i, (c, mo) in enumerate(zip(cases, model_obs)):
+                    io = canon(mod.project(c, results[i][0])) if hasattr(mod, 'project') else results[i][0]
+                    if jdump(io) != jdump(mo):
+                        disagreements.append(i)
         except DriverBroken as e:
             broken.append('model driver: ' + str(e)[:800])
     # ---- 6. verdict ---------------------------------------------------------------------
@@ -422,7 +447,7 @@ def run_check(prop, tier='quick', seed=0, replay=None):
                        'broken': broken,
                        'disagreements': [{'input': cases[i], 'impl_observation':
                                           canon(mod.project(cases[i], results[i][0])) if hasattr(mod, 'project')
-                                          else results[i][0],
+                                          else (results[i][0] if i not in disagreement_notes else '(see notes)'),
                                           'model_observation': model_obs[i]} for i in disagreements[:5]],
                        'searched_cases': searched + len(cases)}
             p = write_replay(prop, payload)
@@ -448,6 +473,7 @@ def run_check(prop, tier='quick', seed=0, replay=None):
             'checker_cmd': 'cd lean && lake build && lake env lean <generated file with #print axioms for every theorem of Usid/Properties/%s.lean>' % prop,
             'trusted_base': TRUSTED_BASE + list(getattr(mod, 'TRUSTED', [])),
             'theorems': {n: a for n, a in ax.items()},
+            'leanchecker': leanchecker,
             'traces_validated_against_impl': len(cases) - len(disagreements) if build_ok else 0,
             'evaluations': len(cases), 'distinct_nontrivial': len(distinct),
             'rule': getattr(mod, 'RULE', ''),
